@@ -307,7 +307,21 @@ def pq_plot_free(proc, n):
     return [proc.get_control_labels(), proc.get_operators_labels() if hasattr(proc, "get_operators_labels") else None]
 
 
-PQUERIES = {"get_noisy_pulses": pq_noisy, "get_qobjevo": pq_qobjevo, "get_full_tlist": pq_tlist,
+def pq_run_state(proc, n):
+    """numerical solver on |0…0⟩ (raises AttributeError on trees where run_state still evaluates qutip.Options)"""
+    import qutip
+    init = proc.generate_init_processor_state() if hasattr(proc, "generate_init_processor_state") else \
+        qutip.basis([2] * n, [0] * n)
+    try:
+        r = proc.run_state(init)
+    except AttributeError as e:
+        if "Options" in str(e):
+            return "not usable with this QuTiP (qutip.Options)"
+        raise
+    return r.states[-1]
+
+
+PQUERIES = {"run_state": pq_run_state, "get_noisy_pulses": pq_noisy, "get_qobjevo": pq_qobjevo, "get_full_tlist": pq_tlist,
             "get_full_coeffs": pq_coeffs, "run_analytically": pq_analytic, "labels": pq_plot_free}
 
 
@@ -644,7 +658,8 @@ class C16(PropertyCheck):
                   "unrepaired behaviours are refuted by kernel-checked counter-examples replayed on the implementation. "
                   "repeat_equal/fresh_equivalent hold for every deterministic call whatever the numpy RNG state (such calls are "
                   "proved never to read it); for unconstrained runs the RNG state is an explicit input (…_rng). "
-                  "Processor.run_state (numerical solver) is not exercised (QuTiP 5.3: qutip.Options missing).")
+                  "Processor.run_state (numerical solver) is exercised only as a query that must leave pulses, phases and "
+                  "compiler state unchanged.")
     trusted_base = [
         "Lean 4.33 kernel; axioms propext, Classical.choice, Quot.sound",
         "Model/Sim.lean, Model/Heap.lean as a description of which attributes each public call writes (validated by "
@@ -652,8 +667,8 @@ class C16(PropertyCheck):
         "snapshots of the correspondence",
         "py/props/_simlib.py, py/props/c16.py (harness, snapshot function, scripted np.random.choice)",
     ]
-    assumptions = ["Processor.run_state (numerical solver) is not exercised: it raises AttributeError with QuTiP 5.3 "
-                   "(qutip.Options), handled under C14/C15"]
+    assumptions = ["Processor.run_state (numerical solver) is exercised as a pure query where usable (on trees where it still "
+                   "evaluates qutip.Options it is skipped)"]
     rule = ("case = one history (<= 8 public calls) on shared objects: simulator calls (run, run_statistics, initialize, "
             "step, state) interleaved with circuit queries (compute_unitary, propagators, resolve_gates, adjacent_gates, "
             "to_chain_structure, reverse_circuit, schedule, qasm export, text drawing), or processor calls "
